@@ -32,13 +32,14 @@ ASSUMPTIONS = [
     'doubles are not symbolic (struct.pack("d") is a C boundary): 9 fixed bit patterns incl. nan, +-inf, -0.0, denormal',
     'strings have 0-2 code points (each any non-NUL, non-surrogate code point)',
     'object paths, signature values and dict keys come from fixed pools (keys would be realised by hashing)',
-    'signatures beyond 4 type codes / nesting 3 and containers longer than 2 are outside the claim',
+    'signatures beyond 4 type codes / nesting 3 are outside the claim; containers have 0-2 elements, and 255-300 elements for 17 array signatures',
     'CrossHair models of bytes/str/int and vf/plugin.py corrections are trusted; every counterexample is replayed on the plain interpreter',
 ]
 STUBS = []
 
 NASTY = ['a{sv}', 'a(yv)', 'yyyyuua(yv)', 'a{s(ias)}', 'aa{yv}', '(y(y(yx)))', 'a(ya{qt})',
          'vyv', 'sgo', 'a(nd)', 'yaay', 'ya(x)', 'av', 'ahh', 'a{yh}', 'bad', 'yat', 'ya{yx}']
+LONG_ARRAYS = ['ay', 'ab', 'an', 'aq', 'ai', 'au', 'ax', 'at', 'ad', 'as', 'ao', 'ag', 'a(y)', 'a(tt)', 'yat', '(yat)', 'atat']
 CODES17 = ['y', 'b', 'n', 'q', 'i', 'u', 'x', 't', 'd', 's', 'o', 'g', 'ai', '(y)', 'v', 'a{yy}', 'h']
 
 
@@ -93,6 +94,15 @@ def obligations(tier):
         for i, s in enumerate(NASTY):
             for (off, le, L) in combos:
                 add(s, off, le, L, (i + off) % 3)
+    # long arrays (bulk paths, 16-bit counters): 255..300 elements, a few of them symbolic, the rest boundary constants
+    for i, s in enumerate(LONG_ARRAYS):
+        if tier == 'quick' and s in ('ab', 'as'):
+            continue                    # ~100 s each: thorough only
+        lens = [256] if tier == 'quick' else [255, 256, 257, 300]
+        for k, L in enumerate(lens):
+            for c in range(1 if tier == 'quick' else 3):
+                off, le, _ = combos[(i * 11 + k * 5 + c * 19) % len(combos)]
+                add(s, off, le, L, (i + k) % 3, timeout=300)
     # de-duplicate ids (round-robin may collide)
     seen = {}
     for o in obs:
